@@ -36,7 +36,7 @@ var (
 	errNumberRange      = errors.New("数值范围设置错误")
 	optionsCache        = make(map[string]optionsCacheValue)
 	cacheLock           sync.RWMutex
-	structRequiredCache = make(map[reflect.Type]requiredCacheValue)
+	structRequiredCache = make(map[requiredCacheKey]requiredCacheValue)
 	structCacheLock     sync.RWMutex
 )
 
@@ -50,6 +50,12 @@ type (
 	requiredCacheValue struct {
 		required bool
 		err      error
+	}
+
+	// requiredCacheKey：结构体是否必填取决于标签键（json/form/path/header…），缓存键必须带上它。
+	requiredCacheKey struct {
+		tag string
+		tp  reflect.Type
 	}
 )
 
@@ -529,7 +535,7 @@ func setValue(kind reflect.Kind, value reflect.Value, str string) error {
 
 func structValueRequired(tag string, tp reflect.Type) (bool, error) {
 	structCacheLock.RLock()
-	val, ok := structRequiredCache[tp]
+	val, ok := structRequiredCache[requiredCacheKey{tag: tag, tp: tp}]
 	structCacheLock.RUnlock()
 	if ok {
 		return val.required, val.err
@@ -537,7 +543,7 @@ func structValueRequired(tag string, tp reflect.Type) (bool, error) {
 
 	required, err := implicitValueRequiredStruct(tag, tp)
 	structCacheLock.Lock()
-	structRequiredCache[tp] = requiredCacheValue{
+	structRequiredCache[requiredCacheKey{tag: tag, tp: tp}] = requiredCacheValue{
 		required: required,
 		err:      err,
 	}
